@@ -16,9 +16,9 @@ if [ "$tier" = replay ]; then   # ./checks/C18.sh replay <file>
   if grep -q '"xbuild"' "$f" 2>/dev/null; then
     eng=$(jq -r .engine "$f"); pr=$(jq -r .property_of_engine "$f"); run=$(jq -r .run_index "$f"); s=$(jq -r .verif_seed "$f"); ta=$(jq -r .tags_a "$f"); tb=$(jq -r .tags_b "$f"); cmdp=$(jq -r .cmd "$f"); mode=$(jq -r .build "$f")
     T=$(mktemp -d /var/tmp/verif-xb.XXXXXX); trap 'rm -rf $T' EXIT
-    cp /repo/go.sum sim/go.sum
+    REPO=${VERIF_REPO:-/repo}; [ -z "${VERIF_MODFLAG:-}" ] && cp $REPO/go.sum sim/go.sum
     for tg in "$ta" "$tb"; do
-      if [ "$mode" = test ]; then (cd sim && $GO test -c -vet=off -tags "$tg" -o "$T/b-$tg" ./cmd/$cmdp) || exit 2; else (cd sim && $GO build -tags "$tg" -o "$T/b-$tg" ./cmd/$cmdp) || exit 2; fi
+      if [ "$mode" = test ]; then (cd sim && $GO test -c -vet=off ${VERIF_MODFLAG:-} -tags "$tg" -o "$T/b-$tg" ./cmd/$cmdp) || exit 2; else (cd sim && $GO build ${VERIF_MODFLAG:-} -tags "$tg" -o "$T/b-$tg" ./cmd/$cmdp) || exit 2; fi
       VERIF_ED_ONLY=1 "$T/b-$tg" trace -prop $pr -engine $eng -seed $s -from $run -to $((run+1)) -v 2>&1 | grep -v '^  ~ ' > "$T/t-$tg.txt"
     done
     if cmp -s "$T/t-$ta.txt" "$T/t-$tb.txt"; then echo "NOT-REPRODUCED property=C18 (transcripts identical under $ta and $tb)"; exit 0; fi
@@ -31,10 +31,10 @@ fi
 K=40; [ "$tier" = thorough ] && K=200
 T=$(mktemp -d /var/tmp/verif-xb.XXXXXX); trap 'rm -rf $T' EXIT
 mkdir -p bin replays evidence
-cp /repo/go.sum sim/go.sum
+REPO=${VERIF_REPO:-/repo}; [ -z "${VERIF_MODFLAG:-}" ] && cp $REPO/go.sum sim/go.sum
 t0=$(date +%s)
 build() { # cmd tags mode out
-  if [ "$3" = test ]; then (cd sim && $GO test -c -vet=off -tags "$2" -o "$4" ./cmd/$1) 2>"$T/build.log"; else (cd sim && $GO build -tags "$2" -o "$4" ./cmd/$1) 2>"$T/build.log"; fi || { echo "BUILD-FAILED ($1 with tags $2):" >&2; tail -30 "$T/build.log" >&2; exit 2; }
+  if [ "$3" = test ]; then (cd sim && $GO test -c -vet=off ${VERIF_MODFLAG:-} -tags "$2" -o "$4" ./cmd/$1) 2>"$T/build.log"; else (cd sim && $GO build ${VERIF_MODFLAG:-} -tags "$2" -o "$4" ./cmd/$1) 2>"$T/build.log"; fi || { echo "BUILD-FAILED ($1 with tags $2):" >&2; tail -30 "$T/build.log" >&2; exit 2; }
 }
 viol=0; pairs=0; runs_compared=0; lines=0
 samples="[]"
@@ -69,8 +69,13 @@ jq -n --argjson pairs $pairs --argjson runs $runs_compared --argjson lines $line
   '{cross_build:{build_pairs_compared:$pairs, runs_per_pair:$k, run_transcripts_compared:$runs, transcript_lines_compared:$lines, differing_pairs:$v, wall_s:$w,
     builds:["default","constantTime","constantTime+purego","generic (signing engine)"], transcript_sample:$smp,
     note:"a transcript = the full event log of a run: every delivery and verdict, message and packet digests, output shares, keys and signatures"}}' > "$T/extra.json"
-./run build || exit 2
-VERIF_EXTRA_COV="$T/extra.json" ./bin/verif check -prop C18 -tier "$tier"
+if [ -n "${VERIF_MODFLAG:-}" ]; then
+  (cd sim && $GO test -c -vet=off $VERIF_MODFLAG -tags verif -o "$T/verif" ./cmd/verif) || exit 2
+  VERIF_EXTRA_COV="$T/extra.json" "$T/verif" check -prop C18 -tier "$tier"
+else
+  ./run build || exit 2
+  VERIF_EXTRA_COV="$T/extra.json" ./bin/verif check -prop C18 -tier "$tier"
+fi
 code=$?
 if [ $viol -gt 0 ]; then
   # the evidence file was written by the harness without the cross-build violations: add them
